@@ -216,6 +216,26 @@ def build(backend, tier):
         links = [{"name": "a", "k": k1, "wrap": 0}]
         md = [mti("Root", "a", return_type="W1" + "*" * k1)] * 2 + term_md("W1", "t_int", None) * 2
         add(f"declared-twice-identically:k{k1}", "j.a().t_int()", md, gen_prelude(backend, links), col_types={"int"})
+    # ---- the declarations in force are those of THIS query: an earlier query of the same process (translated on the same
+    # executor object, or on another one as LocalFile does) that declared the same (type, method) differently - or declared
+    # what this query leaves undeclared - changes nothing
+    for k1, how in itertools.product((0, 1), ("same", "other")):
+        links = [{"name": "a", "k": k1, "wrap": 0}]
+        pre = gen_prelude(backend, links)
+        md_now = [mti("Root", "a", return_type="W1" + "*" * k1)] + term_md("W1", "t_int", None)
+        earlier = {
+            "terminal-other-type": [mti("Root", "a", return_type="W1" + "*" * k1), mti("W1", "t_int", return_type="double"), mti("W1", "t_double_undeclared", return_type="int")],
+            "link-other-depth": [mti("Root", "a", return_type="W1" + "*" * (1 - k1))] + term_md("W1", "t_int", None),
+            "terminal-deref": [mti("Root", "a", return_type="W1" + "*" * k1), mti("W1", "t_int", return_type="int", deref_count=1), mti("W1", "t_double_undeclared", return_type="double", deref_count=1)],
+        }
+        for en, emd in earlier.items():
+            pr = [(per.format("j.a().t_int()"), tuple(base_md + emd))]
+            for kind, e, md, ct, ww in ((f"after-earlier-query:{how}:{en}:declared:k{k1}", "j.a().t_int()", md_now, {"int"}, None),
+                                        (f"after-earlier-query:{how}:{en}:declared-arith:k{k1}", "(j.a().t_int() / 2)", md_now, {"double"}, None),
+                                        (f"after-earlier-query:{how}:{en}:undeclared:k{k1}", "j.a().t_double_undeclared()", md_now[:1], {"double"}, "W1::t_double_undeclared")):
+                add(kind, e, md, pre, col_types=ct, want_warning=ww)
+                cases[-1]["prior"] = pr
+                cases[-1]["prior_executor"] = how
     # ---- const-qualified declarations ("const W1*"): the qualifier must survive into every declaration made from the type
     for k1, d, tn in itertools.product((0, 1, 2), (None, 1), ("t_int", "t_double")):
         links = [{"name": "a", "k": k1, "wrap": d or 0}]
